@@ -1,4 +1,5 @@
 """C13 — schema combinators mean what their parts mean."""
+from ..common import safe_repr
 from .. import encode, gen_value, model, rebuild, runner, sexp, valcases
 from ..common import d42  # noqa: F401
 from ..gen_schema import SchemaGen
@@ -70,12 +71,12 @@ def options_forwarded(ctx):
                     bare = not validate(t, v, **opts).has_errors()
                     got = not validate(s, mv(v), **opts).has_errors()
                 except Exception as e:  # noqa: BLE001
-                    ctx.violation("validate with options raised " + type(e).__name__, combinator=name, options=repr(opts), value=repr(v))
+                    ctx.violation("validate with options raised " + type(e).__name__, combinator=name, options=safe_repr(opts), value=safe_repr(v))
                     continue
                 want = bare or (name in ("union",) and v is None) or (name in ("alias of union", "any") and isinstance(v, int) and not isinstance(v, bool))
                 if got != want:
                     ctx.violation("a combinator does not mean what its parts mean under validation options", combinator=name,
-                                  options=repr(opts), value=repr(mv(v)), part_accepts=bare, combined_accepts=got)
+                                  options=safe_repr(opts), value=safe_repr(mv(v)), part_accepts=bare, combined_accepts=got)
 
 
 def wide_unions(ctx):
@@ -116,7 +117,7 @@ def wide_unions(ctx):
                         continue
                     if some != got:
                         ctx.violation("a union does not accept exactly what its operands accept", build=bname, operands=n,
-                                      union=repr(u)[:400], value=repr(v), some_operand_accepts=some, union_accepts=got)
+                                      union=safe_repr(u)[:400], value=safe_repr(v), some_operand_accepts=some, union_accepts=got)
                         break
 
 
@@ -154,11 +155,11 @@ def run(ctx):
         try:
             make_required(bad_schema, bad_keys)
             if not (isinstance(bad_keys, dict)):
-                ctx.violation("make_required accepted wrongly-typed arguments", schema=repr(bad_schema), keys=repr(bad_keys))
+                ctx.violation("make_required accepted wrongly-typed arguments", schema=safe_repr(bad_schema), keys=safe_repr(bad_keys))
         except DeclarationError:
             pass
         except Exception as e:  # noqa: BLE001
-            ctx.violation("make_required raised %s, not DeclarationError" % type(e).__name__, schema=repr(bad_schema), keys=repr(bad_keys))
+            ctx.violation("make_required raised %s, not DeclarationError" % type(e).__name__, schema=safe_repr(bad_schema), keys=safe_repr(bad_keys))
     _finish(ctx, reqs, exp, info)
 
 
@@ -168,21 +169,21 @@ def _one(ctx, g, corr):
         (a, wa), (b, wb) = g.any_schema(2), g.any_schema(2)
         u = a | b
         u3 = schema.any(schema.any(a, b), schema.any(b))
-        ctx.case(("or", repr(a), repr(b)), True)
+        ctx.case(("or", safe_repr(a), safe_repr(b)), True)
         vals = [wa, wb] + gen_value.perturb(wa, ctx.rnd)[:6] + gen_value.perturb(wb, ctx.rnd)[:6]
         for v in vals:
             ctx.count("union_probes")
             try:
                 want = ok(a, v) or ok(b, v)
                 if ok(u, v) != want:
-                    ctx.violation("a | b does not accept exactly the union", a=repr(a), b=repr(b), value=repr(v), union=repr(u))
+                    ctx.violation("a | b does not accept exactly the union", a=safe_repr(a), b=safe_repr(b), value=safe_repr(v), union=safe_repr(u))
                 if ok(u3, v) != want:
-                    ctx.violation("a nested union does not mean the same after flattening", a=repr(a), b=repr(b), value=repr(v))
+                    ctx.violation("a nested union does not mean the same after flattening", a=safe_repr(a), b=safe_repr(b), value=safe_repr(v))
                 al = schema.alias("N", a)
                 if ok(al, v) != ok(a, v):
-                    ctx.violation("alias(name, t) does not accept exactly what t accepts", t=repr(a), value=repr(v))
+                    ctx.violation("alias(name, t) does not accept exactly what t accepts", t=safe_repr(a), value=safe_repr(v))
             except Exception as e:  # noqa: BLE001
-                ctx.violation("a combinator check raised " + type(e).__name__, a=repr(a), b=repr(b), value=repr(v))
+                ctx.violation("a combinator check raised " + type(e).__name__, a=safe_repr(a), b=safe_repr(b), value=safe_repr(v))
         corr(lambda I: ["union", encode.enc_schema(a, I), encode.enc_schema(b, I)], lambda: a | b, ("union", a, b))
         # --- dict addition
         (d1, w1), (d2, w2) = g.dict_(2), g.dict_(2)
@@ -193,22 +194,22 @@ def _one(ctx, g, corr):
         try:
             s = d1 + d2
         except Exception as e:  # noqa: BLE001
-            ctx.violation("d1 + d2 raised %s for two dict schemas" % type(e).__name__, d1=repr(d1), d2=repr(d2), exception=repr(e))
+            ctx.violation("d1 + d2 raised %s for two dict schemas" % type(e).__name__, d1=safe_repr(d1), d2=safe_repr(d2), exception=safe_repr(e))
             return
         ref = ref_merged(d1, d2)
-        ctx.case(("add", repr(d1), repr(d2)), d1.props.get("keys") is not Nil and d2.props.get("keys") is not Nil)
+        ctx.case(("add", safe_repr(d1), safe_repr(d2)), d1.props.get("keys") is not Nil and d2.props.get("keys") is not Nil)
         merged_w = {**w1, **w2} if isinstance(w1, dict) and isinstance(w2, dict) else w2
         vals = [w1, w2, merged_w] + gen_value.perturb(merged_w, ctx.rnd)[:10]
         for v in vals:
             ctx.count("add_probes")
             if ok(s, v) != ok(ref, v):
-                ctx.violation("d1 + d2 does not accept what the merged dict schema accepts", d1=repr(d1), d2=repr(d2),
-                              value=repr(v), sum=repr(s), reference=repr(ref))
+                ctx.violation("d1 + d2 does not accept what the merged dict schema accepts", d1=safe_repr(d1), d2=safe_repr(d2),
+                              value=safe_repr(v), sum=safe_repr(s), reference=safe_repr(ref))
         k1, k2 = d1.props.get("keys"), d2.props.get("keys")
         relaxed = (k1 is not Nil and ... in k1) or (k2 is not Nil and ... in k2)
         ks = s.props.get("keys")
         if (... in ks) != relaxed:
-            ctx.violation("d1 + d2 is relaxed iff either operand is — violated", d1=repr(d1), d2=repr(d2), sum=repr(s))
+            ctx.violation("d1 + d2 is relaxed iff either operand is — violated", d1=safe_repr(d1), d2=safe_repr(d2), sum=safe_repr(s))
         corr(lambda I: ["add", encode.enc_schema(d1, I), encode.enc_schema(d2, I)], lambda: d1 + d2, ("add", d1, d2))
         # --- make_required
         keys = d1.props.get("keys")
@@ -226,17 +227,17 @@ def _one(ctx, g, corr):
                     want = ok(d1, v) and isinstance(v, dict) and all(k in v for k in req_keys)
                     if ok(r, v) != want:
                         ctx.violation("make_required(d, keys) does not accept exactly the values of d with those keys present",
-                                      d=repr(d1), keys=repr(pick), value=repr(v), result=repr(r))
+                                      d=safe_repr(d1), keys=safe_repr(pick), value=safe_repr(v), result=safe_repr(r))
             corr(lambda I: ["makerequired", encode.enc_schema(d1, I),
                             "_" if pick is None else ["ks"] + [encode.enc_key(k, I) for k in list(pick)]],
                  lambda: make_required(d1, pick), ("required", d1, pick))
         # --- d[key] and iteration expose the declared members
         if keys is not Nil:
             if list(d1) != list(keys.keys()):
-                ctx.violation("iteration over a dict schema does not yield its declared keys", d=repr(d1))
+                ctx.violation("iteration over a dict schema does not yield its declared keys", d=safe_repr(d1))
             for k in names:
                 if d1[k] is not keys[k][0]:
-                    ctx.violation("d[key] is not the declared member schema", d=repr(d1), key=repr(k))
+                    ctx.violation("d[key] is not the declared member schema", d=safe_repr(d1), key=safe_repr(k))
                 corr(lambda I: ["getitem", encode.enc_schema(d1, I), encode.enc_key(k, I)], lambda: d1[k], ("getitem", d1, k))
 
 
@@ -251,7 +252,7 @@ def _finish(ctx, reqs, exp, info):
             bad += 1
             if bad <= 10:
                 ctx.breakage("correspondence", "combinator result differs between model and code", op=what[0],
-                             operands=[repr(x)[:300] for x in what[1:]],
+                             operands=[safe_repr(x)[:300] for x in what[1:]],
                              detail=f"real {sexp.dumps(e)[:400]}\nmodel {sexp.dumps(r)[:400] if not isinstance(r, str) else r}")
     ctx.cov["corr_disagreements"] = bad
     ctx.sample({"example": "schema.dict({'a': schema.int}) + schema.dict({optional('a'): schema.str, ...: ...})"})
